@@ -359,7 +359,8 @@ class Loop:
 
 LOOP_OPS = {'snap': 'lop_snap', 'process': 'lop_step',
             'master_cycle': 'lop_cycle', 'integrity': 'lop_integrity',
-            'tick': 'lop_tick', 'drain': 'lop_drain'}
+            'tick': 'lop_tick', 'drain': 'lop_drain',
+            'm_probe': 'lop_m_probe'}
 
 
 class LoopWorld:
@@ -549,3 +550,74 @@ class LoopWorld:
         if self.zk.children(z.EVENTS):
             return False
         return True
+
+    # -- C02 through run_loop: nobody tells the master to run a cycle
+    def op_lop_m_probe(self, op):
+        """The cell is brought to rest, one new instance is submitted, and
+        run_loop by itself - watch delivery, process, `up_to_date`, the
+        scheduler interval - must have placed it within a few intervals if
+        the harness's own scan of the records finds a server that fits."""
+        from engines import mastersim as ms
+        from treadmill.scheduler import masterapi
+        if self.prop != 'C02' or not self._loop_alive():
+            return
+        interval = mastermod._SCHEDULER_INTERVAL
+
+        def settle():
+            self.op_lop_drain({})
+            if not self._loop_alive():
+                return False
+            self.clock.advance(interval)
+            self.op_lop_drain({})
+            return self._loop_alive() and self.violation is None
+
+        quiet = False
+        for _ in range(4):
+            if not settle():
+                return
+            before = self.placement_digest()
+            if not settle():
+                return
+            if self.master.up_to_date and self.loop_caught_up() and \
+                    self.placement_digest() == before:
+                quiet = True
+                break
+        if quiet and self.master.cell.next_event_at < \
+                self.clock.peek() + 4 * interval + 5.0:
+            quiet = False             # something is about to expire
+        blacklist = self._zk_obj(z.BLACKEDOUT_APPS)
+        if not quiet or blacklist:
+            self.probes['probe_not_quiescent'] = \
+                self.probes.get('probe_not_quiescent', 0) + 1
+            return
+        manifest = op['manifest']
+        inst = masterapi.create_apps(self.admin, op['app_id'], manifest, 1)[0]
+        fit = self._m_probe_fits(inst, manifest)
+        placed = False
+        app = None
+        for _ in range(3):
+            if not settle():
+                return
+            app = self.master.cell.apps.get(inst)
+            placed = app is not None and app.server is not None
+            if placed:
+                break
+        if app is None or app.priority != 1:
+            fit = None                # not loaded as asked: nothing to judge
+        if fit is not None:
+            self.probes['probe_fit'] = self.probes.get('probe_fit', 0) + 1
+            self.probes['loop_probe_fit'] = \
+                self.probes.get('loop_probe_fit', 0) + 1
+            self.nontrivial += 1
+            if not placed:
+                self.fail('C02:fits-but-pending:master-level',
+                          'probe %s %r fits server %s (free %r by the '
+                          'records) but run_loop left it pending for three '
+                          'scheduler intervals' % (
+                              inst, manifest, fit[0], fit[1]))
+                return
+        else:
+            self.probes['probe_nofit'] = self.probes.get('probe_nofit', 0) + 1
+        self.log.ev('m_probe', inst, fit[0] if fit else None, placed)
+        masterapi.delete_apps(self.admin, [inst])
+        settle()
